@@ -169,6 +169,31 @@ theorem mandatory_edge_shape (e : EInfo) (h : e.isMandatory = true) :
   simp only [EInfo.isMandatory, Bool.and_eq_true, Bool.not_eq_true', beq_eq_false_iff_ne] at h
   exact ⟨h.1.2, h.2, h.1.1⟩
 
+/-! ### a look-ahead that is binding where it must not be (finding F-C04-1)
+
+`NeighborInfo::make_non_folded_edge_info` inherits `within_optional_scope` from the current hint
+object and forgets the edge's own `optional` flag.  For
+`{ RA { id @output e { g @optional { x @filter(op: "=", value: ["$v"]) @output } } } }` (Vids 1, 2, 3;
+`g` = Eid 2): the hint object reached from the root by `first_edge("e").destination()
+.first_edge("g").destination()` reports filters as binding and the candidate `Single($v)` for `x`,
+while the hint object of the resolution point of `g` (and the look-ahead from a `ResolveInfo` at
+vertex 2) correctly report nothing. -/
+
+def la_e1 : IREdge := ⟨1, 1, 2, "e", [], false, none⟩
+def la_e2 : IREdge := ⟨2, 2, 3, "g", [], true, none⟩
+def la_v3 : IRVertex :=
+  ⟨3, "A", none, [⟨.bin .equals, .loc "x" ⟨"Int", [true]⟩, some (.var "v" ⟨"Int", [true]⟩)⟩]⟩
+
+theorem lookahead_through_optional_reports_binding :
+    let viaRoot := (((VInfo.resolve 1 false).nonFoldedEdge la_e1).destination.nonFoldedEdge la_e2).destination
+    la_e2.optional = true ∧
+    viaRoot.nonBinding = false ∧
+    staticallyRequired [("v", .int64 7)] viaRoot la_v3 "x" = .ok (some (.single (.int64 7))) ∧
+    (VInfo.ofEdge la_e2).nonBinding = true ∧
+    staticallyRequired [("v", .int64 7)] (VInfo.ofEdge la_e2) la_v3 "x" = .ok none ∧
+    ((VInfo.resolve 2 true).nonFoldedEdge la_e2).destination.nonBinding = true :=
+  ⟨rfl, rfl, rfl, rfl, rfl, rfl⟩
+
 /-! ### the global statement
 
   theorem prune_invariant (ir : IRQuery) (D : Data) (args) (rows) :
@@ -200,3 +225,4 @@ end TF.C04
 #print axioms TF.C04.deep_recursion_non_binding
 #print axioms TF.C04.optional_fold_lookahead_non_binding
 #print axioms TF.C04.mandatory_edge_shape
+#print axioms TF.C04.lookahead_through_optional_reports_binding
